@@ -40,7 +40,11 @@ pub(crate) fn run() -> Result<(), Error> {
 
     let mut ps = ProcessState::init(env)?;
     let env2 = ps.env().clone();
-    let mut ptx = ProcessTransaction::new(&mut ps, TransactionBehavior::Deferred)?;
+    // The dirtiness check may write (it forgets that a vanished file was a target); those
+    // writes are rolled back when this transaction is dropped, but inside a deferred
+    // transaction the first of them fails with "database is locked" whenever another redo
+    // committed since our first read.  Take the write lock up front instead.
+    let mut ptx = ProcessTransaction::new(&mut ps, TransactionBehavior::Immediate)?;
     let cache: RefCell<HashSet<i64>> = RefCell::new(HashSet::new());
     let mut cb = DirtyCallbacksBuilder::new()
         .is_checked(|f, _| cache.borrow().contains(&f.id()))
